@@ -43,6 +43,9 @@ func genCtl(r *simrt.Rand, tier string, flavor string) json.RawMessage {
 	if flavor == "C14" && r.Bool(0.15) {
 		return genCtlDeletionCoveredBySnapshot(r, c)
 	}
+	if flavor == "C14" && r.Bool(0.12) {
+		return genCtlReplicaMovedAwayForGood(r, c)
+	}
 	if (flavor == "C20" || flavor == "C18") && r.Bool(0.15) {
 		return genCtlRemoveLeader(r, c)
 	}
@@ -108,6 +111,28 @@ func genCtl(r *simrt.Rand, tier string, flavor string) json.RawMessage {
 // replication factor exceeds the cluster (every later join makes the allocator propose
 // replica changes), five or more membership changes follow, then further catalogue
 // changes, then the primary (or everyone) restarts and replays all of it at once.
+// genCtlReplicaMovedAwayForGood: a node that hosts replicas is removed from the cluster,
+// its replicas are given to a spare node, and it joins again (same id, old disk) without
+// getting them back; when it restarts it replays "create (with me as a host) ... remove me
+// from the partition" back to back, while its allocator may still be busy loading.
+func genCtlReplicaMovedAwayForGood(r *simrt.Rand, c W3Case) json.RawMessage {
+	c.Nodes = 3
+	c.Faults = false
+	c.Cfg.Net = NetCfg{MinLatMs: 1, JitterMs: r.Range(0, 10)}
+	c.Cfg.SnapshotOffset = 5000
+	c.Cfg.Deep, c.Cfg.Burst = []int{40, 160, 400}[r.Intn(3)], []int{0, 20, 50}[r.Intn(3)]
+	for i, n := 1, r.Range(1, 2); i <= n; i++ {
+		c.Ops = append(c.Ops, W3Op{K: "create", Node: r.Range(1, 3), DS: i, P: r.Range(1, 3), R: r.Range(2, 3)})
+	}
+	c.Ops = append(c.Ops, W3Op{K: "join", Node: 4}, W3Op{K: "wait", Ms: r.Range(1500, 3000)})
+	x := r.Range(2, 3)
+	c.Ops = append(c.Ops, W3Op{K: "removenode", Node: 1, A: x}, W3Op{K: "wait", Ms: r.Range(3000, 7000)},
+		W3Op{K: "rejoin", Node: x, A: []int{1, 4}[r.Intn(2)]}, W3Op{K: "wait", Ms: r.Range(1500, 4000)},
+		W3Op{K: "crash", Node: x}, W3Op{K: "wait", Ms: r.Range(100, 2000)}, W3Op{K: "restart", Node: x})
+	b, _ := json.Marshal(CtlCase{W3: c})
+	return b
+}
+
 func genCtlReplayBurst(r *simrt.Rand, c W3Case) json.RawMessage {
 	c.Nodes = 1
 	c.Cfg.SnapshotOffset = []int64{5000, 5000, 3}[r.Intn(3)]
@@ -949,9 +974,9 @@ func init() {
 	}
 	common := "case = cluster starting with 1..3 servers and 3..12 control-plane steps: create / delete dataset through any node, join of a new node (up to 5), removal of a node, crash / restart of one or all nodes, waits that let the 10 s snapshot ticker compact the zero group (threshold knob 2, 3 or 5000), isolation / heal, optional message faults; then faults stop, everything restarts and settles, the oracle runs, ALL nodes are restarted once more and the oracle runs again, then a canary create through every node; "
 	mk("C14", common+"oracle: every member lists the same catalogue (id, dimension, metric, partition ids, replica assignment), acknowledged creates are present, acknowledged deletes are absent and their partition groups are gone; non-trivial = at least one create/join/removal; distinct = hash of the event log",
-		[]string{"catalogue_creates", "catalogue_deletes", "catalogue_comparisons", "membership_joins", "membership_removals", "node_restarts", "follower_installed_snapshot", "canary_creates_ok", "fault_crash"}, 500, 20000)
+		[]string{"catalogue_creates", "catalogue_deletes", "catalogue_comparisons", "membership_joins", "membership_removals", "node_restarts", "follower_installed_snapshot", "canary_creates_ok", "fault_crash"}, 1000, 20000)
 	mk("C18", common+"half of the create/delete/join steps are issued without waiting (bursts); oracle: bounded liveness - the cluster settles within 120 simulated seconds, no catalogue lock is held while everything is blocked, canary creates succeed on every node; non-trivial = at least one create/join/removal; distinct = hash of the event log",
-		[]string{"catalogue_creates", "catalogue_deletes", "membership_joins", "membership_removals", "node_restarts", "canary_creates_ok", "fault_crash"}, 400, 15000)
+		[]string{"catalogue_creates", "catalogue_deletes", "membership_joins", "membership_removals", "node_restarts", "canary_creates_ok", "fault_crash"}, 1200, 15000)
 	mk("C20", common+"oracle: every member's address book equals the acknowledged joins minus the acknowledged removals, with the announced addresses, after settling and again after a restart of all nodes; non-trivial = at least one create/join/removal; distinct = hash of the event log",
-		[]string{"membership_joins", "membership_removals", "membership_views_compared", "node_restarts", "follower_installed_snapshot", "fault_crash"}, 500, 20000)
+		[]string{"membership_joins", "membership_removals", "membership_views_compared", "node_restarts", "follower_installed_snapshot", "fault_crash"}, 1000, 20000)
 }
